@@ -633,11 +633,13 @@ impl Transaction {
     // tx.work -> needed to confirm adequate routing work
     //
     pub fn generate(&mut self, public_key: &SaitoPublicKey, tx_index: u64, block_id: u64) -> bool {
-        // ensure hash exists for signing
-        self.generate_hash_for_signature();
-
-        // nolan_in, nolan_out, total fees
+        // nolan_in, nolan_out, total fees; renumbers the outputs by position
         self.generate_total_fees(tx_index, block_id);
+
+        // the hash the signature is checked against is taken AFTER the renumbering: the signed
+        // bytes carry no slip counts, the position-numbered slip_index of the outputs is what
+        // fixes where the inputs end (Transaction::sign numbers them the same way)
+        self.generate_hash_for_signature();
 
         // routing work for asserted public_key (creator)
         self.generate_total_work(public_key);
